@@ -26,8 +26,8 @@ ASSUMPTIONS = [
     "bounds use 1/alpha in place of L (for alpha < 1/L the property's form with L would be stronger than the theorem)",
     "PDHG distance is the M-norm of the proximal-point form, M = [[1/tau, -A^H],[-A, 1/sigma]] on w_n = (x_n, u_{n+1}); the cross "
     "term cannot be dropped",
-    "dual-accelerated envelope (gamma_dual > 0) is asserted with the calibrated constant C = 4 (measured 1.34), the only "
-    "non-theorem constant; array steps with acceleration: only the fixed-point claim",
+    "dual-accelerated envelope (gamma_dual > 0) is asserted with the calibrated constant C = 4 (measured 1.34 scalar, see evidence notes for arrays), the only "
+    "non-theorem constant; array steps with primal acceleration: Chambolle-Pock Thm 2 in the rescaled variables (modulus gamma*min(tau0))",
     "reference optimum certified by duality gap <= 1e-8; uncertified instances are skipped and counted",
 ]
 
@@ -207,8 +207,6 @@ def st_pdhg(draw):
         c["g"] = "l2"
     if c["accel"] == "dual":
         c["f"] = "l2"
-    if c["accel"] is not None:
-        c["steps"] = "scalar" if draw(st.integers(0, 3)) else c["steps"]
     return c
 
 
@@ -338,23 +336,29 @@ def check_pdhg(case):
             else:
                 d_first = d
             prev_w, d_prev = w, d
-        elif case["steps"] == "scalar":
-            # harness's own step recursion (Chambolle-Pock 2011, Alg. 2)
+        else:
+            # Harness's own step recursion (Chambolle-Pock 2011, Alg. 2).  For array (diagonal) steps the iteration is
+            # Alg. 2 in the variables x' = T0^(-1/2) x, u' = Sigma0^(-1/2) u with unit scalar steps and strong-convexity
+            # modulus gamma * min(tau0): the telescoped inequality of Thm 2 reads, for every N,
+            #   sum |x_N - x*|^2 / tau0  <=  s_N^2 ( sum |x_0 - x*|^2 / tau0 + sum |u_0 - u*|^2 / sigma0 ),
+            # s_0 = 1, s_{n+1} = s_n / sqrt(1 + 2 gamma min(tau0) s_n)  (scalar steps: the same with tau_n = s_n tau0).
+            C0 = float(np.sum(np.abs(x0 - xs) ** 2 / tau_a) + np.sum(np.abs(u0 - us) ** 2 / sig_a))
+            if k == 1:
+                s_h = 1.0
             if case["accel"] == "primal":
-                th = 1 / np.sqrt(1 + 2 * gam * tau_h)
-                tau_h, sig_h = tau_h * th, sig_h / th
-                bound = tau_h ** 2 * (E0x / tau ** 2 + E0u / (sigma * tau))
-                err = float(np.linalg.norm(x_passed - xs) ** 2)
+                s_h = s_h / np.sqrt(1 + 2 * gam * float(np.min(tau_a)) * s_h)
+                err = float(np.sum(np.abs(x_passed - xs) ** 2 / tau_a))
                 C = 1.0
             else:
-                th = 1 / np.sqrt(1 + 2 * gam * sig_h)
-                sig_h, tau_h = sig_h * th, tau_h / th
-                bound = sig_h ** 2 * (E0u / sigma ** 2 + E0x / (sigma * tau))
-                err = float(np.linalg.norm(u_passed - us) ** 2)
+                s_h = s_h / np.sqrt(1 + 2 * gam * float(np.min(sig_a)) * s_h)
+                err = float(np.sum(np.abs(u_passed - us) ** 2 / sig_a))
                 C = 4.0
-            if not err <= C * bound * (1 + 1e-9) + 1e-14 * (1 + E0x + E0u) + 1e-7 * bound:
-                r.fail("pdhg:accelerated-rate:%s" % case["accel"],
-                       "after %d updates the squared error %.6e exceeds %s * step_N^2 * (...) = %.6e" % (k, err, C, C * bound))
+            bound = s_h ** 2 * C0
+            r.notes["worst_accel_ratio"] = max(r.notes.get("worst_accel_ratio", 0.0), err / max(bound, 1e-300))
+            if not err <= C * bound * (1 + 1e-9) + 1e-14 * (1 + C0) + 1e-7 * bound:
+                r.fail("pdhg:accelerated-rate:%s:%s" % (case["accel"], case["steps"]),
+                       "after %d updates the step-weighted squared error %.6e exceeds %s * s_N^2 * (initial weighted distance) = %.6e"
+                       % (k, err, C, C * bound))
                 return r
         checked += 1
     r.nontrivial = checked >= 10 and (case["g"] != "none" or case["smin"] < 0.5 or case["f"] == "l1")
